@@ -254,18 +254,31 @@ impl Model {
 
     /// Clean close followed by init (eager) / init_lazy on the same directory.
     pub fn restart(&mut self, lazy: bool) {
+        let had_files = !self.present().is_empty();
+        self.restart_ext(lazy, had_files, 0);
+    }
+
+    /// Restart where the caller knows whether the work dir held any blob file when init started
+    /// (files that get quarantined count) and the lowest id a new blob may get.
+    pub fn restart_ext(&mut self, lazy: bool, dir_had_blob_files: bool, floor: usize) {
         let mut all = self.present();
         all.sort();
         self.active = None;
         self.closed = all;
-        if self.closed.is_empty() {
+        let floor = floor.max(self.quarantined.iter().max().map_or(0, |m| m + 1));
+        if !dir_had_blob_files {
             // work dir without blob files: a fresh storage is created (also by init_lazy)
-            self.next_id = 0;
+            self.next_id = floor;
             self.ensure_active();
         } else {
-            self.next_id = self.closed.last().unwrap() + 1;
+            self.next_id = floor.max(self.closed.last().map_or(0, |l| l + 1));
             if !lazy {
-                self.active = self.closed.pop();
+                if self.closed.is_empty() {
+                    // every blob was quarantined or skipped: a fresh active blob
+                    self.ensure_active();
+                } else {
+                    self.active = self.closed.pop();
+                }
             }
         }
     }
